@@ -96,6 +96,123 @@ def probe_property_callbacks():
     return cases, fails
 
 
+def probe_orphan_sibling(seed, n):
+    """Directed family (Spec checked on the implementation; the engine model has no concurrency inside a group): on
+    the async engine the callbacks of one group are started together. One of them raises after j suspensions while a
+    sibling is still suspended (it would go on for k > j suspensions, then send an event). After `send()` has raised
+    nothing of the abandoned event may happen any more: no callback line, no event, whatever is sent or awaited later;
+    the state is the source (validators … on) or the target (enter, after). Drivers: synchronous code, and inside a
+    running loop. (D33.)"""
+    import asyncio
+    import random
+    import warnings
+    from statemachine import State, StateMachine
+    fails, cases = [], 0
+    groups = ("validators", "before", "exit", "on", "enter", "after")
+    for i in range(n):
+        rng = random.Random(f"{seed}:orphan:{i}")
+        grp = rng.choice(groups)
+        j = rng.randint(0, 2)
+        k = j + rng.randint(1, 4)
+        raiser_first = rng.random() < 0.5
+        in_loop = rng.random() < 0.5
+        on_listener = rng.random() < 0.4
+        log = []
+        plan = {}
+
+        async def body(name):
+            log.append(f"begin {name}")
+            what = plan.get(name)
+            if what and what[0] == "raise":
+                for _ in range(what[1]):
+                    await asyncio.sleep(0)
+                raise RuntimeError(name)
+            if what and what[0] == "linger":
+                for _ in range(what[1]):
+                    await asyncio.sleep(0)
+                log.append(f"stale {name}")
+                r = what[2].send("nxt")
+                if asyncio.iscoroutine(r):
+                    await r
+            log.append(f"end {name}")
+
+        def mk(name):
+            async def cb(self):
+                await body(name)
+            cb.__name__ = name
+            return cb
+
+        names = {g: [f"{g}_1", f"{g}_2"] for g in groups}
+        ns = {}
+        for g in groups:
+            ns[names[g][0]] = mk(names[g][0])
+        second = {names[g][1]: mk(names[g][1]) for g in groups}
+        Lst = type("Lst", (), dict(second))
+        if not on_listener:
+            ns.update(second)
+        with warnings.catch_warnings():
+            warnings.simplefilter("ignore")
+            a = State(initial=True, exit=names["exit"])
+            b = State(enter=names["enter"])
+            c = State()
+            ns.update(a=a, b=b, c=c,
+                      go=a.to(b, validators=names["validators"], before=names["before"], on=names["on"],
+                              after=names["after"]),
+                      nxt=a.to(c) | b.to(c),
+                      other=a.to.itself(internal=True) | b.to.itself(internal=True) | c.to.itself(internal=True))
+            M = type("Orphan", (StateMachine,), ns)
+            sm = M(listeners=[Lst()] if on_listener else [])
+        r_name, l_name = (names[grp][0], names[grp][1]) if raiser_first else (names[grp][1], names[grp][0])
+        plan[r_name] = ("raise", j)
+        plan[l_name] = ("linger", k, sm)
+        expect = "b" if grp in ("enter", "after") else "a"
+        cases += 1
+        what = f"group={grp} raiser={r_name} after {j}, sibling lingers {k}, {'loop' if in_loop else 'sync'} driver, second on {'a listener' if on_listener else 'the machine'}"
+
+        mark = []
+
+        def judge(raised):
+            # (what the sibling did *before* the failure was noticed is its own business — the callbacks of a group
+            # run concurrently —, an event it sent in that window is a queued event and is dropped)
+            if not raised:
+                fails.append(f"{what}: the failure did not reach the caller")
+            if sm.current_state.id != expect or len(log) != mark[0]:
+                fails.append(f"{what}: after the failing send had returned: state {sm.current_state.id} (expected "
+                             f"{expect}), later log entries {log[mark[0]:]}")
+
+        try:
+            with warnings.catch_warnings():
+                warnings.simplefilter("ignore")
+                if in_loop:
+                    async def main():
+                        await sm.activate_initial_state()
+                        raised = False
+                        try:
+                            await sm.send("go")
+                        except RuntimeError:
+                            raised = True
+                        mark.append(len(log))
+                        for _ in range(k + 3):
+                            await asyncio.sleep(0)
+                        for _ in range(2):
+                            await sm.send("other")
+                        return raised
+                    raised = asyncio.run(main())
+                else:
+                    raised = False
+                    try:
+                        sm.send("go")
+                    except RuntimeError:
+                        raised = True
+                    mark.append(len(log))
+                    for _ in range(3):
+                        sm.send("other")
+            judge(raised)
+        except Exception as e:
+            fails.append(f"{what}: {type(e).__name__}: {e}; log {log}")
+    return cases, fails
+
+
 def run(ctx):
     ctx.level = "proof"
     lean_obligations(ctx)
@@ -110,6 +227,10 @@ def run(ctx):
     ctx.coverage["property_callback_cases"] = ncases
     if pf:
         ctx.violation(ctx.write_replay("property_callbacks.txt", "\n".join(pf[:12]) + "\n"), pf[0])
+    ncases, of = probe_orphan_sibling(ctx.seed, 120 if ctx.tier == "quick" else 2000)
+    ctx.coverage["orphan_sibling_cases"] = ncases
+    if of:
+        ctx.violation(ctx.write_replay("orphan_sibling.txt", "\n".join(of[:12]) + "\n"), of[0])
     k = 5 if ctx.tier == "quick" else 40
     engine_check(ctx, PROFILE, 900, 30000, nontrivial, monitor=monitor, tag="C04s", expand=fault_variants(k), share=0.62)
     cov1 = dict(ctx.coverage)
